@@ -16,7 +16,7 @@ DETECT = {
  "C17/m1": ["C17"], "C17/m2": ["C17"], "C18/m1": ["C18"], "C18/m2": ["C18"], "C19/m1": ["C19"], "C19/m2": ["C19"],
  "C20/m1": ["C20"], "C20/m2": ["C20"],
 }
-DETECT.update({"r2/C06/m1": ["C06", "C07"], "r2/C10/m2": ["C10", "C03"], "r5/C15/m2": ["C14"]})
+DETECT.update({"r2/C06/m1": ["C06", "C07"], "r2/C10/m2": ["C10", "C03"], "r5/C15/m2": ["C14"], "r6/C11/m2": ["C13", "C01", "C20"]})
 kept = 0
 for r in CONF:
     pid, m = r["property"], r["mutation"]
